@@ -177,6 +177,9 @@ def _build_tensor(case):
         return np.zeros(sh, dtype=complex if cplx else float)
     if fill == "int":
         t = nprng.integers(-2, 3, size=sh).astype(float)
+        if not cplx and nprng.random() < 0.5:
+            # a genuinely integer-typed array (hand-written tensors): results must not inherit the integer type
+            return nprng.integers(-2, 3, size=sh).astype(np.int64)
         return t + 1j * nprng.integers(-2, 3, size=sh) if cplx else t
     if fill in ("lowrank", "dupcol"):
         a, b = case["a"], case["b"]
